@@ -39,6 +39,7 @@ def run(chk):
     e3.run_V1(chk)
 
     e3.run_I5(chk, ("yastn.tensor", "yastn.initialize"))
+    e3.run_I6(chk, ("yastn.tensor", "yastn.initialize"))
     from . import e10
     e10.run_U(chk, ("yastn.tensor", "yastn.initialize"), floor1=5, floor2=1)
 
